@@ -61,7 +61,7 @@ def gen_shape(rng, max_teams=8, max_size=8):
 def gen_teams_num(rng, st, shape, sigma0_ok=None, ints=True):
     """(mu, sigma) numbers for every player, in units of beta, with edge clusters."""
     beta = st["beta"]
-    mode = rng.choice(["uniform", "uniform", "default", "equal", "ulp", "mismatch", "mismatch", "narrow", "twins"])
+    mode = rng.choice(["uniform", "uniform", "default", "equal", "ulp", "mismatch", "mismatch", "narrow", "twins", "near"])
     teams = []
     base_mu = rng.uniform(-20, 20)
     base_sg = logu(rng, 1e-4, 10)
@@ -77,6 +77,11 @@ def gen_teams_num(rng, st, shape, sigma0_ok=None, ints=True):
             elif mode == "ulp":
                 mu = base_mu * (1 + rng.choice([0, 1, -1, 2]) * 2.0 ** -52)
                 sg = base_sg * (1 + rng.choice([0, 1, -1]) * 2.0 ** -52)
+            elif mode == "near":
+                # almost level: gaps between 1e-9 and 1e-3 beta (below any "these are equal" threshold a change might use,
+                # far above rounding)
+                mu = base_mu + rng.choice([-1, 1]) * logu(rng, 1e-9, 1e-3)
+                sg = base_sg * (1 + rng.choice([0, 1, -1]) * logu(rng, 1e-9, 1e-3))
             elif mode == "narrow":
                 mu, sg = rng.uniform(5, 7), logu(rng, 0.05, 0.5)
             else:  # mismatch: 4 .. 10 combined standard deviations between first team and the others
@@ -98,6 +103,19 @@ def gen_teams_num(rng, st, shape, sigma0_ok=None, ints=True):
             for p in teams[ti]:
                 p[0], p[1] = rng.uniform(-20, 20), logu(rng, 1e-4, 10)
         rng.shuffle(teams)
+    if rng.random() < 0.05:
+        # every player has exactly the same ordinal mu - 3 sigma, with different (mu, sigma): small integers times a power of
+        # two near beta / 4, so that mu = o + 3 sigma and mu - 3 sigma = o hold exactly in binary64
+        u = 2.0 ** (math.frexp(beta)[1] - 3)
+        o = rng.randint(-20, 20) * u
+        out = []
+        for team in teams:
+            t = []
+            for _ in team:
+                sg = rng.randint(1, 12) * u
+                t.append((o + 3 * sg, sg))
+            out.append(t)
+        return out
     out = []
     use_int = ints and rng.random() < 0.08
     for team in teams:
